@@ -83,6 +83,7 @@ def main():
         ("cat/stack", lambda: torch.stack([torch.cat([X, Y], 1), torch.cat([Y, X], 1)], 0), lambda: torch.stack([torch.cat([x, y], 1), torch.cat([y, x], 1)], 0)),
         ("gather", lambda: X.gather(-1, idx), lambda: x.gather(-1, idx)),
         ("index_select", lambda: torch.index_select(X, 1, torch.tensor([2, 0])), lambda: torch.index_select(x, 1, torch.tensor([2, 0]))),
+        ("unbind", lambda: torch.stack(X.unbind(1), 0), lambda: torch.stack(x.unbind(1), 0)),
         ("chunk", lambda: torch.cat(torch.chunk(X, 2, dim=1), 1), lambda: torch.cat(torch.chunk(x, 2, dim=1), 1)),
         ("linear", lambda: F.linear(X, W, Y[0]), lambda: F.linear(x, w, y[0])),
         ("matmul", lambda: X @ W, lambda: x @ w),
